@@ -339,19 +339,17 @@ theorem banner_compose_is_rfc (major minor : Nat) (raw : Bytes) (comment : Optio
 /-- compose ∘ parse for the identification string, protocol versions 2.0 and 1.99 (the ones in
 use), an opaque software version (`SshSoftwareVersionUnparsed`: `hsw` says the text is not one a
 vendor class claims) and any comment: the composed bytes are the RFC string, at most 255 long, and
-parse back to the banner consuming exactly them — whatever follows, unless that starts with a line
-feed (`banner_self_delimiting_full_fails` below) -/
+parse back to the banner consuming exactly them — whatever follows -/
 theorem banner_roundtrip (raw : Bytes) (comment : Option Bytes) (ht : bannerTextOk raw comment = true)
-    (hsw : parseSoftwareVersion raw = .ok ⟨"SshSoftwareVersionUnparsed", some raw⟩) (s : Bytes)
-    (hs : s.head? ≠ some 0x0a) :
+    (hsw : parseSoftwareVersion raw = .ok ⟨"SshSoftwareVersionUnparsed", some raw⟩) (s : Bytes) :
     (∀ b, composeBanner ⟨2, 0, ⟨"SshSoftwareVersionUnparsed", some raw⟩, comment⟩ = .ok b →
       b = Spec.Ssh.identification 2 0 raw comment ∧ b.length ≤ 255 ∧
       parseBanner (b ++ s) = .ok (⟨2, 0, ⟨"SshSoftwareVersionUnparsed", some raw⟩, comment⟩, b.length)) ∧
     (∀ b, composeBanner ⟨1, 99, ⟨"SshSoftwareVersionUnparsed", some raw⟩, comment⟩ = .ok b →
       b = Spec.Ssh.identification 1 99 raw comment ∧ b.length ≤ 255 ∧
       parseBanner (b ++ s) = .ok (⟨1, 99, ⟨"SshSoftwareVersionUnparsed", some raw⟩, comment⟩, b.length)) :=
-  ⟨fun b hc => banner_roundTrip_of_version 2 0 3 bannerVersion_2_0 (by decide) raw comment ht hsw b hc s hs,
-   fun b hc => banner_roundTrip_of_version 1 99 4 bannerVersion_1_99 (by decide) raw comment ht hsw b hc s hs⟩
+  ⟨fun b hc => banner_roundTrip_of_version 2 0 3 bannerVersion_2_0 (by decide) raw comment ht hsw b hc s,
+   fun b hc => banner_roundTrip_of_version 1 99 4 bannerVersion_1_99 (by decide) raw comment ht hsw b hc s⟩
 
 /-- C03 for the banner: an accepted identification string consumed between 1 and 255 bytes (RFC 4253
 §4.2: "The maximum length of the string is 255 characters, including the Carriage Return and Line
@@ -372,20 +370,44 @@ theorem banner_former_crashes_rejected :
 theorem protocol_version_value_error_witness :
     parseProtocolVersion [0x33, 0x2e, 0x30] = .error (.crash "ValueError") := by decide +kernel
 
-/-- FULL statement (C03): the identification string is self-delimiting -/
-def banner_self_delimiting_full : Prop := SelfDelim bannerCodec
+/-- FULL statement (C03; false while `parse_separator('\n')` swallowed every line feed after the string):
+the identification string is self-delimiting — it ends at its first line feed -/
+theorem banner_self_delimiting : SelfDelim bannerCodec := banner_selfDelim
 
-/-- false: `parse_separator('\n')` swallows every line feed that follows — `SSH-2.0-x\n` is 10 bytes,
-followed by another `\n` it is 11 -/
-theorem banner_self_delimiting_full_fails : ¬ banner_self_delimiting_full := by
+/-- the former counter-example: a second line feed is no longer consumed; and the 255-byte limit is on
+the composed (CR LF) form: 254 bytes ended by a bare LF are accepted, 255 are `TooMuchData(1)` -/
+theorem banner_line_feed_and_limit :
+    parseBanner [0x53, 0x53, 0x48, 0x2d, 0x32, 0x2e, 0x30, 0x2d, 0x78, 0x0a, 0x0a] =
+      .ok (⟨2, 0, ⟨"SshSoftwareVersionUnparsed", some [0x78]⟩, none⟩, 10) ∧
+    (parseBanner ([0x53, 0x53, 0x48, 0x2d, 0x32, 0x2e, 0x30, 0x2d] ++ List.replicate 245 0x78 ++ [0x0a])).toOption.map (·.2) =
+      some 254 ∧
+    parseBanner ([0x53, 0x53, 0x48, 0x2d, 0x32, 0x2e, 0x30, 0x2d] ++ List.replicate 246 0x78 ++ [0x0a]) =
+      .error (.tooMuch 1) := by decide +kernel
+
+/-- FULL statement (C04 for the banner): every proper prefix of a composed identification string is
+rejected as not enough data with `1 ≤ m ≤` really missing -/
+def banner_prefix_reject_full : Prop :=
+  ∀ (b : Banner) (bytes : Bytes), composeBanner b = .ok bytes → ∀ k, k < bytes.length →
+    ∃ m : Nat, parseBanner (bytes.take k) = .error (.notEnough m) ∧ 1 ≤ m ∧ m ≤ bytes.length - k
+
+/-- false, and pinned by the repository's own tests (`b'SSH-2.0-software_version\r'` must raise
+`InvalidValue`): a prefix without its line feed is an invalid value, not "not enough data" — a reader
+has to delimit the banner by its line end.  `SSH-2.0-x` (9 of the 11 bytes of `SSH-2.0-x\r\n`): -/
+theorem banner_prefix_reject_full_fails : ¬ banner_prefix_reject_full := by
   intro h
-  have h1 : bannerCodec.parse [0x53, 0x53, 0x48, 0x2d, 0x32, 0x2e, 0x30, 0x2d, 0x78, 0x0a] =
-      .ok (⟨2, 0, ⟨"SshSoftwareVersionUnparsed", some [0x78]⟩, none⟩, 10) := by decide +kernel
-  have h2 := h _ _ _ h1 [0x0a]
-  have h3 : bannerCodec.parse (([0x53, 0x53, 0x48, 0x2d, 0x32, 0x2e, 0x30, 0x2d, 0x78, 0x0a] : Bytes).take 10 ++ [0x0a]) =
-      .ok (⟨2, 0, ⟨"SshSoftwareVersionUnparsed", some [0x78]⟩, none⟩, 11) := by decide +kernel
-  rw [h3] at h2
-  exact absurd h2 (by decide)
+  have hc : composeBanner ⟨2, 0, ⟨"SshSoftwareVersionUnparsed", some [0x78]⟩, none⟩ =
+      .ok [0x53, 0x53, 0x48, 0x2d, 0x32, 0x2e, 0x30, 0x2d, 0x78, 0x0d, 0x0a] := by decide +kernel
+  obtain ⟨m, hm, _, _⟩ := h _ _ hc 9 (by decide)
+  have hp : parseBanner (([0x53, 0x53, 0x48, 0x2d, 0x32, 0x2e, 0x30, 0x2d, 0x78, 0x0d, 0x0a] : Bytes).take 9) =
+      .error .invalidValue := by decide +kernel
+  rw [hp] at hm
+  cases hm
+
+/-- what does hold: the prefixes shorter than three bytes are `NotEnoughData(3 - k)` -/
+theorem banner_prefix_reject_partial (b : Banner) (bytes : Bytes) (h : composeBanner b = .ok bytes) (k : Nat)
+    (hk : k < 3) :
+    ∃ m : Nat, parseBanner (bytes.take k) = .error (.notEnough m) ∧ 1 ≤ m ∧ m ≤ bytes.length - k :=
+  banner_prefix_partial b bytes h k hk
 
 /-! ### non-vacuity -/
 
